@@ -55,7 +55,9 @@ def dump_mir(crate='elvis-core', features=None, shim=None):
             cmd += ['--features', features]
         cmd += ['--', '-Zunpretty=mir', '-C', 'debug-assertions=off', '-C', 'overflow-checks=on']
         from .native import target_lock
+        from .native import touch_tree
         with target_lock('mir-target'):
+            touch_tree(scratch)
             p = subprocess.run(cmd, cwd=build_dir, env=env, capture_output=True, text=True)
         if p.returncode != 0 or len(p.stdout) < 1000:
             raise RuntimeError('MIR dump failed:\n' + p.stderr[-3000:])
@@ -77,7 +79,7 @@ def load(crate='elvis-core', features=None, shim=None):
     text, src_root = dump_mir(crate, features, shim)
     k = (crate, features, hashlib.sha256(text.encode()).hexdigest())
     if k not in _parsed:
-        pk = os.path.join(CACHE, 'mir', f'{crate}-{k[2][:20]}.pickle')
+        pk = os.path.join(CACHE, 'mir', f'{crate}-{k[2][:20]}-p2.pickle')      # p<N>: bump when parse_mir changes
         if os.path.exists(pk):
             try:
                 _parsed[k] = pickle.load(open(pk, 'rb'))
